@@ -15,7 +15,7 @@
           density exactly for every generated N). *)
 From Coq Require Import List Arith Lia Bool ZArith Field Ring.
 From PD Require Import Base.Field Base.Matrix Base.Solve Model.Gauss Model.Poly
-  Model.Prior Model.Solver Model.Loss Proofs.GaussProofs.
+  Model.Prior Model.Solver Model.Loss Proofs.GaussProofs Proofs.FilterProofs.
 Import ListNotations.
 Local Open Scope nat_scope.
 
@@ -371,6 +371,314 @@ Section LossProofs.
   Qed.
 End LossProofs.
 
+(* ============================================ T12.3 at the level of the model *)
+Section LossTwoPoint.
+  Context {F : Type} `{FL : FieldLaws F}.
+  Local Open Scope F_scope.
+  Add Field FFl2 : fth.
+  Local Notation mat := (@mat F).
+  Local Notation vec := (@vec F).
+  Local Notation normal := (@normal F).
+  Local Notation cond := (@cond F).
+  Local Notation dterm := (@dterm F).
+
+  (* the observation model of to_derivative for one scalar-observation block:
+     row selecting coordinate i, noise variance r *)
+  Definition sel_obs (N i : nat) (r : F) : cond :=
+    from_linop_and_noise N 1 (mk 1 N (fun _ col => delta i col)) (obs_noise 1 1 (fun _ => r)).
+
+  Lemma delta_sym i j : (delta i j : F) = delta j i.
+  Proof. unfold delta. rewrite Nat.eqb_sym. reflexivity. Qed.
+
+  Lemma vsum_1 (f : nat -> F) : vsum 1 f = f 0%nat.
+  Proof. simpl. ring. Qed.
+
+  Lemma vsum_delta_l' n i (f : nat -> F) : i < n -> vsum n (fun k => delta i k * f k) = f i.
+  Proof. apply vsum_delta_l. Qed.
+  Lemma vsum_delta_r' n i (f : nat -> F) : i < n -> vsum n (fun k => f k * delta i k) = f i.
+  Proof.
+    intro Hi. rewrite <- (vsum_delta_l n i f Hi). apply vsum_ext. intros k _. ring.
+  Qed.
+
+  Lemma mk_1_1 (f : nat -> nat -> F) : mk 1 1 f = [[f 0%nat 0%nat]].
+  Proof. reflexivity. Qed.
+
+  (* marginalising through the selecting observation model *)
+  Lemma obs_marg_select N i r (rv : normal) : i < N ->
+    c_marg N 1 1 (sel_obs N i r) rv = mkN [[mget (n_mean rv) i 0]] [[mget (n_cov rv) i i + r]].
+  Proof.
+    intro Hi. unfold c_marg, sel_obs, from_linop_and_noise, obs_noise.
+    cbn [c_A c_b c_Q c_tl c_to n_mean n_cov].
+    f_equal.
+    - unfold scale_rows at 1. rewrite mk_1_1. f_equal. f_equal.
+      rewrite vget_vones by lia.
+      rewrite mget_madd by lia. rewrite mget_mmul by lia.
+      rewrite (vsum_ext N _ (fun l => delta i l * mget (n_mean rv) l 0)).
+      2:{ intros l Hl. rewrite mget_mk by lia. rewrite mget_scale_rows by lia.
+          rewrite vget_vones by lia. ring. }
+      rewrite vsum_delta_l by exact Hi.
+      unfold mzero. rewrite mget_mk by lia. ring.
+    - unfold dsand at 1. rewrite mk_1_1. f_equal. f_equal.
+      rewrite !vget_vones by lia.
+      rewrite mget_madd by lia. rewrite mget_sandwich by lia.
+      rewrite (vsum_ext N _ (fun k => mget (n_cov rv) i k * delta i k)).
+      2:{ intros k Hk. rewrite mget_mk by lia.
+          rewrite (vsum_ext N _ (fun l => delta i l * mget (n_cov rv) l k)).
+          2:{ intros l Hl. rewrite mget_mk by lia. rewrite mget_dsand by lia.
+              rewrite !vget_vones by lia. ring. }
+          rewrite vsum_delta_l by exact Hi. reflexivity. }
+      rewrite vsum_delta_r' by exact Hi.
+      rewrite mget_mk by lia. simpl. ring.
+  Qed.
+
+  (* conditioning on a scalar observation of coordinate i: the updated mean and
+     covariance, entrywise (si = 1 / (P_ii + r) through the certified inverse) *)
+  Lemma revert_select_entries N i r (mu P : mat) obs bw (y : F) :
+    i < N ->
+    c_revert minv N 1 1 (sel_obs N i r) (mkN mu P) = Some (obs, bw) ->
+    exists si,
+      (mget P i i + r) * si = 1
+      /\ (forall l, l < N ->
+            mget (n_mean (c_apply 1 N 1 bw [[y]])) l 0
+            = mget mu l 0 + mget P i l * si * (y - mget mu i 0))
+      /\ (forall l m, l < N -> m < N ->
+            mget (n_cov (c_apply 1 N 1 bw [[y]])) l m
+            = mget P l m - mget P i l * si * mget P i m).
+  Proof.
+    intros Hi. unfold c_revert, sel_obs, from_linop_and_noise, obs_noise.
+    cbn [c_A c_b c_Q c_tl c_to n_mean n_cov]. cbv zeta.
+    set (A := mk 1 N (fun _ col : nat => delta i col)).
+    set (m' := scale_rows N 1 (vones N) mu).
+    set (P' := dsand N (vones N) P).
+    set (AP := mmul 1 N N A P').
+    set (Q := mk 1 1 (fun i0 j : nat => if Nat.eqb i0 j then r else 0)).
+    set (S := madd 1 1 (mmul 1 N 1 AP (mtr 1 N A)) Q).
+    assert (HA : forall l, l < N -> mget A 0 l = delta i l).
+    { intros l Hl. unfold A. rewrite mget_mk by lia. reflexivity. }
+    assert (HP' : forall a b, a < N -> b < N -> mget P' a b = mget P a b).
+    { intros a b Ha Hb. unfold P'. rewrite mget_dsand by lia. rewrite !vget_vones by lia. ring. }
+    assert (Hm' : forall l, l < N -> mget m' l 0 = mget mu l 0).
+    { intros l Hl. unfold m'. rewrite mget_scale_rows by lia. rewrite vget_vones by lia. ring. }
+    assert (HAP : forall l, l < N -> mget AP 0 l = mget P i l).
+    { intros l Hl. unfold AP. rewrite mget_mmul by lia.
+      rewrite (vsum_ext N _ (fun j => delta i j * mget P j l)).
+      2:{ intros j Hj. rewrite HA by lia. rewrite HP' by lia. reflexivity. }
+      exact (vsum_delta_l N i (fun j => mget P j l) Hi). }
+    assert (HS : mget S 0 0 = mget P i i + r).
+    { unfold S. rewrite mget_madd by lia. rewrite mget_mmul by lia.
+      rewrite (vsum_ext N _ (fun l => mget P i l * delta i l)).
+      2:{ intros l Hl. rewrite HAP by lia. rewrite mget_mtr by lia. rewrite HA by lia. reflexivity. }
+      rewrite vsum_delta_r' by exact Hi. unfold Q. rewrite mget_mk by lia. simpl. ring. }
+    destruct (minv 1 S) as [Si|] eqn:Hinv; [|discriminate].
+    intro Hs. inversion Hs; subst obs bw. clear Hs.
+    apply minv_spec in Hinv. destruct Hinv as [_ [HSi _]].
+    pose proof (mmul_mid_entry 1 _ _ HSi 0 0 ltac:(lia) ltac:(lia)) as E.
+    rewrite vsum_1 in E. rewrite HS in E.
+    change (delta 0 0 : F) with (1 : F) in E.
+    set (si := mget Si 0 0) in *.
+    exists si. split; [exact E|].
+    set (G := mmul N 1 1 (mtr 1 N AP) Si).
+    set (m_obs := madd 1 1 (mmul 1 N 1 A m') (mzero 1 1)).
+    assert (HG : forall l, l < N -> mget G l 0 = mget P i l * si).
+    { intros l Hl. unfold G. rewrite mget_mmul by lia. rewrite vsum_1.
+      rewrite mget_mtr by lia. rewrite HAP by lia. reflexivity. }
+    assert (Hmo : mget m_obs 0 0 = mget mu i 0).
+    { unfold m_obs. rewrite mget_madd by lia. rewrite mget_mmul by lia.
+      rewrite (vsum_ext N _ (fun j => delta i j * mget mu j 0)).
+      2:{ intros j Hj. rewrite HA by lia. rewrite Hm' by lia. reflexivity. }
+      rewrite vsum_delta_l by exact Hi. unfold mzero. rewrite mget_mk by lia. ring. }
+    unfold c_apply. cbn [c_A c_b c_Q c_tl c_to n_mean n_cov].
+    split.
+    - intros l Hl.
+      rewrite mget_scale_rows by lia. rewrite vget_vinv by lia. rewrite vget_vones by lia.
+      rewrite finv_1.
+      rewrite mget_madd by lia. rewrite mget_mmul by lia. rewrite vsum_1.
+      rewrite mget_scale_rows by lia. rewrite vget_vinv by lia. rewrite vget_vones by lia.
+      rewrite finv_1.
+      rewrite mget_msub by lia. rewrite mget_mmul by lia. rewrite vsum_1.
+      rewrite HG by lia. rewrite Hmo. rewrite Hm' by lia.
+      change (mget [[y]] 0 0) with y. ring.
+    - intros l m Hl Hm.
+      rewrite mget_dsand by lia. rewrite !vget_vinv by lia. rewrite !vget_vones by lia.
+      rewrite finv_1.
+      rewrite mget_msub by lia. rewrite HP' by lia.
+      rewrite mget_sandwich by lia. rewrite vsum_1. rewrite vsum_1.
+      rewrite !HG by lia. rewrite HS.
+      transitivity (mget P l m - mget P i l * si * ((mget P i i + r) * si) * mget P i m); [ring|].
+      rewrite E. ring.
+  Qed.
+
+  (* entries of a marginalisation through an arbitrary conditional (c = 1) *)
+  Lemma c_marg_mean_entry N (K : cond) (rv : normal) a : a < N ->
+    mget (n_mean (c_marg N N 1 K rv)) a 0
+    = vget (c_to K) a * (vsum N (fun l => mget (c_A K) a l * (vget (c_tl K) l * mget (n_mean rv) l 0))
+                         + mget (c_b K) a 0).
+  Proof.
+    intro Ha. unfold c_marg. cbn [n_mean].
+    rewrite mget_scale_rows by lia. rewrite mget_madd by lia. rewrite mget_mmul by lia.
+    f_equal. f_equal. apply vsum_ext. intros l Hl. rewrite mget_scale_rows by lia. reflexivity.
+  Qed.
+
+  Lemma c_marg_cov_entry N (K : cond) (rv : normal) a b : a < N -> b < N ->
+    mget (n_cov (c_marg N N 1 K rv)) a b
+    = vget (c_to K) a
+      * (vsum N (fun k => vsum N (fun l =>
+           mget (c_A K) a l * (vget (c_tl K) l * mget (n_cov rv) l k * vget (c_tl K) k)) * mget (c_A K) b k)
+         + mget (c_Q K) a b)
+      * vget (c_to K) b.
+  Proof.
+    intros Ha Hb. unfold c_marg. cbn [n_cov].
+    rewrite mget_dsand by lia. rewrite mget_madd by lia. rewrite mget_sandwich by lia.
+    f_equal. f_equal. f_equal. apply vsum_ext. intros k Hk. f_equal.
+    apply vsum_ext. intros l Hl. rewrite mget_dsand by lia. reflexivity.
+  Qed.
+
+  Definition symmetricN (N : nat) (P : mat) : Prop :=
+    forall a b, a < N -> b < N -> mget P a b = mget P b a.
+
+  (* T12.3 at the level of the model (partial: two time points, one block,
+     scalar observations, arbitrary state dimension N and backward conditional K).
+     The two density terms produced by the recursion -- terminal update, then
+     predict through K and update -- combine to the density term of the JOINT
+     Gaussian of (y0, y1) assembled from the Markov factorisation:
+       x1 ~ N(mu, P),  x0 | x1 through K,  Cov(x0, x1) = A_plain P,
+       y_j = (x_j)_i + N(0, r_j). *)
+  Theorem two_point_recursion_is_joint_density N i (K : cond) (mu P : mat) (r0 r1 y0 y1 : F)
+          (t1 t0 tj : dterm) (upd1 upd0 : normal) :
+    i < N -> symmetricN N P ->
+    bayes_rule_and_logpdf minv N 1 1 (sel_obs N i r1) [[y1]] (mkN mu P) = Some (t1, upd1) ->
+    bayes_rule_and_logpdf minv N 1 1 (sel_obs N i r0) [[y0]] (c_marg N N 1 K upd1) = Some (t0, upd0) ->
+    let x0 := c_marg N N 1 K (mkN mu P) in
+    let m1 := mget mu i 0 in
+    let m0 := mget (n_mean x0) i 0 in
+    let s11 := mget P i i + r1 in
+    let s00 := mget (n_cov x0) i i + r0 in
+    let s01 := vsum N (fun l => mget (c_A (c_plain N N 1 K)) i l * mget P l i) in
+    n_density minv 2 1 (mkN [[m0]; [m1]] [[s00; s01]; [s01; s11]]) [[y0]; [y1]] = Some tj ->
+    d_maha tj = d_maha t1 + d_maha t0 /\ d_det tj = d_det t1 * d_det t0.
+  Proof.
+    intros Hi Hsym H1 H0. cbv zeta. intro Hj.
+    destruct (bayes_rule_and_logpdf_spec minv N 1 1 _ _ _ t1 upd1 H1) as [D1 [_ [bw1 [R1 [U1 _]]]]].
+    destruct (bayes_rule_and_logpdf_spec minv N 1 1 _ _ _ t0 upd0 H0) as [D0 _].
+    rewrite obs_marg_select in D1 by exact Hi. cbn [n_mean n_cov] in D1.
+    rewrite obs_marg_select in D0 by exact Hi.
+    destruct (revert_select_entries N i r1 mu P _ bw1 y1 Hi R1) as [si [Esi [Um Uc]]].
+    rewrite <- U1 in Um, Uc.
+    set (s11 := mget P i i + r1) in *.
+    assert (H11 : s11 <> 0).
+    { intro Hc. rewrite Hc in Esi. apply (F_1_neq_0 fth). rewrite <- Esi. ring. }
+    assert (Hsi : si = 1 / s11).
+    { transitivity ((s11 * si) / s11); [field; exact H11|]. rewrite Esi. reflexivity. }
+    set (w := fun l => vget (c_to K) i * mget (c_A K) i l * vget (c_tl K) l).
+    set (s01 := vsum N (fun l => mget (c_A (c_plain N N 1 K)) i l * mget P l i)) in *.
+    assert (Hs01a : vsum N (fun l => w l * mget P i l) = s01).
+    { unfold s01. apply vsum_ext. intros l Hl. unfold c_plain. cbn [c_A].
+      rewrite mget_mk by lia. unfold w. rewrite (Hsym i l) by lia. reflexivity. }
+    (* predicted mean *)
+    assert (Hpm : mget (n_mean (c_marg N N 1 K upd1)) i 0
+                  = mget (n_mean (c_marg N N 1 K (mkN mu P))) i 0 + s01 / s11 * (y1 - mget mu i 0)).
+    { rewrite !c_marg_mean_entry by exact Hi. cbn [n_mean].
+      rewrite (vsum_ext N (fun l => mget (c_A K) i l * (vget (c_tl K) l * mget (n_mean upd1) l 0))
+                 (fun l => mget (c_A K) i l * (vget (c_tl K) l * mget mu l 0)
+                           + (mget (c_A K) i l * vget (c_tl K) l * mget P i l) * (si * (y1 - mget mu i 0)))).
+      2:{ intros l Hl. rewrite Um by lia. ring. }
+      rewrite vsum_add. rewrite vsum_scale_r.
+      rewrite <- Hs01a. unfold w.
+      rewrite (vsum_ext N (fun l => vget (c_to K) i * mget (c_A K) i l * vget (c_tl K) l * mget P i l)
+                 (fun l => vget (c_to K) i * (mget (c_A K) i l * vget (c_tl K) l * mget P i l))).
+      2:{ intros l Hl. ring. }
+      rewrite vsum_scale_l. rewrite Hsi. field. exact H11. }
+    (* predicted covariance *)
+    assert (Hpc : mget (n_cov (c_marg N N 1 K upd1)) i i + r0
+                  = (mget (n_cov (c_marg N N 1 K (mkN mu P))) i i + r0) - s01 * (s01 / s11)).
+    { rewrite !c_marg_cov_entry by exact Hi. cbn [n_cov].
+      set (T1 := vsum N (fun l => mget (c_A K) i l * vget (c_tl K) l * mget P i l)).
+      assert (HT1 : vget (c_to K) i * T1 = s01).
+      { rewrite <- Hs01a. unfold T1, w. rewrite <- vsum_scale_l. apply vsum_ext. intros l Hl. ring. }
+      rewrite (vsum_ext N
+                 (fun k => vsum N (fun l => mget (c_A K) i l * (vget (c_tl K) l * mget (n_cov upd1) l k * vget (c_tl K) k))
+                           * mget (c_A K) i k)
+                 (fun k => vsum N (fun l => mget (c_A K) i l * (vget (c_tl K) l * mget P l k * vget (c_tl K) k))
+                           * mget (c_A K) i k
+                           - (mget (c_A K) i k * vget (c_tl K) k * mget P i k) * (T1 * si))).
+      2:{ intros k Hk.
+          rewrite (vsum_ext N (fun l => mget (c_A K) i l * (vget (c_tl K) l * mget (n_cov upd1) l k * vget (c_tl K) k))
+                     (fun l => mget (c_A K) i l * (vget (c_tl K) l * mget P l k * vget (c_tl K) k)
+                               - (mget (c_A K) i l * vget (c_tl K) l * mget P i l) * (si * mget P i k * vget (c_tl K) k))).
+          2:{ intros l Hl. rewrite Uc by lia. ring. }
+          rewrite vsum_sub. rewrite vsum_scale_r. fold T1. ring. }
+      rewrite vsum_sub. rewrite vsum_scale_r. fold T1.
+      rewrite Hsi.
+      transitivity (vget (c_to K) i
+                    * (vsum N (fun k => vsum N (fun l =>
+                         mget (c_A K) i l * (vget (c_tl K) l * mget P l k * vget (c_tl K) k)) * mget (c_A K) i k)
+                       + mget (c_Q K) i i) * vget (c_to K) i + r0
+                    - (vget (c_to K) i * T1) * ((vget (c_to K) i * T1) / s11)); [field; exact H11|].
+      rewrite HT1. reflexivity. }
+    cbn [n_mean n_cov] in D0. rewrite Hpm, Hpc in D0.
+    exact (chain_rule_two_points _ _ _ _ _ _ _ tj t1 t0 Hj D1 D0).
+  Qed.
+
+  Lemma to_derivative_single_block q i (r : F) :
+    to_derivative (mkShape BlockDiag q 1) i [r] = [sel_obs (S q) i r].
+  Proof. reflexivity. Qed.
+
+  (* the same through the top-level loss function (one block-diagonal block) *)
+  Theorem two_point_loss_terms_are_joint_density q i (K : cond) (mu P : mat) (r0 r1 y0 y1 : F)
+          (terms : list (list dterm)) :
+    i <= q -> symmetricN (S q) P ->
+    let s := mkShape BlockDiag q 1 in
+    let N := S q in
+    loss_lml_timeseries_terms minv s i [[[[y0]]]; [[[y1]]]] (mkMS (Single [mkN mu P]) [[K]]) [[r0]; [r1]]
+      = Some terms ->
+    let x0 := c_marg N N 1 K (mkN mu P) in
+    let m1 := mget mu i 0 in
+    let m0 := mget (n_mean x0) i 0 in
+    let s11 := mget P i i + r1 in
+    let s00 := mget (n_cov x0) i i + r0 in
+    let s01 := vsum N (fun l => mget (c_A (c_plain N N 1 K)) i l * mget P l i) in
+    exists t1 t0,
+      terms = [[t1]; [t0]]
+      /\ forall tj,
+           n_density minv 2 1 (mkN [[m0]; [m1]] [[s00; s01]; [s01; s11]]) [[y0]; [y1]] = Some tj ->
+           d_maha tj = d_maha t1 + d_maha t0 /\ d_det tj = d_det t1 * d_det t0.
+  Proof.
+    intros Hi Hsym. cbv zeta.
+    unfold loss_lml_timeseries_terms.
+    assert (Hleb : Nat.leb i (sh_q (mkShape BlockDiag q 1)) = true) by (apply Nat.leb_le; exact Hi).
+    rewrite Hleb.
+    change (std_shapes_ok (mkShape BlockDiag q 1) (length [[[[y0]]]; [[[y1]]]]) [[r0]; [r1]]) with true.
+    cbn [andb remove_filtering_distributions ms_marginal ms_conditional map].
+    rewrite !to_derivative_single_block.
+    unfold evaluate_lml_terms.
+    change (last [[sel_obs (S q) i r0]; [sel_obs (S q) i r1]] []) with [sel_obs (S q) i r1].
+    change (last [[[[y0]]]; [[[y1]]]] []) with [[[y1]]].
+    change (removelast [[sel_obs (S q) i r0]; [sel_obs (S q) i r1]]) with [[sel_obs (S q) i r0]].
+    change (removelast [[[[y0]]]; [[[y1]]]]) with [[[[y0]]]].
+    unfold f_bayes_logpdf at 1.
+    change (sh_N (mkShape BlockDiag q 1)) with (S q).
+    change (sh_nout (mkShape BlockDiag q 1)) with 1%nat.
+    change (sh_c (mkShape BlockDiag q 1)) with 1%nat.
+    cbn [f_bayes_blocks].
+    destruct (bayes_rule_and_logpdf minv (S q) 1 1 (sel_obs (S q) i r1) [[y1]] (mkN mu P))
+      as [[t1 upd1]|] eqn:H1; [|discriminate].
+    cbn [map fst snd lml_scan_terms].
+    unfold f_bayes_logpdf, f_marg.
+    change (sh_N (mkShape BlockDiag q 1)) with (S q).
+    change (sh_nout (mkShape BlockDiag q 1)) with 1%nat.
+    change (sh_c (mkShape BlockDiag q 1)) with 1%nat.
+    cbn [map2 f_bayes_blocks].
+    destruct (bayes_rule_and_logpdf minv (S q) 1 1 (sel_obs (S q) i r0) [[y0]] (c_marg (S q) (S q) 1 K upd1))
+      as [[t0 upd0]|] eqn:H0; [|discriminate].
+    cbn [map fst snd app].
+    intro Ht. inversion Ht; subst terms. clear Ht.
+    exists t1, t0. split; [reflexivity|].
+    intros tj Hj.
+    exact (two_point_recursion_is_joint_density (S q) i K mu P r0 r1 y0 y1 t1 t0 tj upd1 upd0
+             ltac:(lia) Hsym H1 H0 Hj).
+  Qed.
+End LossTwoPoint.
+
 (* ------------------------------------------------------------------ examples:
    the hypotheses of the theorems above are satisfiable (Qc instance) *)
 From Coq Require Import QArith Qcanon.
@@ -410,3 +718,17 @@ Example ex_chain_rule_hyps :
     /\ n_density (F:=Qc) minv 1 1 (mkN [[m1]] [[s11]]) [[y1]] = Some t1
     /\ n_density (F:=Qc) minv 1 1 (mkN [[m0 + s01 / s11 * (y1 - m1)]] [[s00 - s01 * (s01 / s11)]])%F [[y0]] = Some t0.
 Proof. do 3 eexists. vm_compute. repeat split; reflexivity. Qed.
+
+(* the time-series loss on two time points succeeds (hypothesis of
+   two_point_loss_terms_are_joint_density), with a symmetric terminal covariance *)
+Example ex_two_point_terms_some :
+  exists terms,
+    loss_lml_timeseries_terms (F:=Qc) minv (mkShape BlockDiag 1 1) 1 [[[[exq 2]]]; [[[exq 1]]]]
+      (mkMS (Single ex_term) [ex_cond]) [[exq 4]; [exq 1]] = Some terms.
+Proof. eexists. vm_compute. reflexivity. Qed.
+Example ex_term_symmetric :
+  forall a b, a < 2 -> b < 2 -> mget (n_cov (hd (mkN [] []) ex_term)) a b = mget (n_cov (hd (mkN [] []) ex_term)) b a.
+Proof.
+  intros a b Ha Hb.
+  destruct a as [|[|a]]; destruct b as [|[|b]]; try lia; reflexivity.
+Qed.
